@@ -567,10 +567,40 @@ def thorough_proof_recheck(ctx):
         ctx.log("coqchk accepted Properties_C17 (no axioms)")
 
 
+# translator tie: functions regenerated by tools/c2int.py on every run, in call order (the l generators call a_u*_rev)
+INT_CRC = [f for w in WIDTHS for f in (["a_crc8m_init", "a_crc8l_init", "a_crc8"] if w == 8 else
+                                         ["a_crc%dm_init" % w, "a_crc%dl_init" % w, "a_crc%dm" % w, "a_crc%dl" % w])]
+INT_SOURCES = [("src/a.c", ["a_u8_rev", "a_u16_rev", "a_u32_rev", "a_u64_rev"]),
+               ("src/crc.c", INT_CRC),
+               ("src/hash.c", ["a_hash_bkdr", "a_hash_bkdr_", "a_hash_sdbm", "a_hash_sdbm_"])]
+# fuel the generated call sites pass: generators 257 (outer, c = 0..255) and 9 (inner, b = 8..1); updates and hashes one more
+# than the number of cells of the message (the Gallina parameter holding it)
+INT_FUEL = dict([("a_crc%d%s_init" % (w, d), ["257%nat", "9%nat"]) for w in WIDTHS for d in "ml"] +
+                [(f, ["S (length pdata)"]) for f in INT_CRC if not f.endswith("_init")] +
+                [("a_hash_bkdr", ["S (length str_)"]), ("a_hash_sdbm", ["S (length str_)"]),
+                 ("a_hash_bkdr_", ["S (length ptr_)"]), ("a_hash_sdbm_", ["S (length ptr_)"])])
+INT_TIES = [vlib.VERIF / "harness" / PID / ("TieInt%s.v" % x) for x in ("Rev", "Init", "Crc", "Hash")]
+
+
+def translator_tie(ctx):
+    return ctx.int_translate_and_tie(INT_SOURCES, "CrcGen", INT_TIES, fuel=INT_FUEL)
+
+
 def run(ctx):
     proved = ctx.prove()
     if proved and not ctx.quick:
         thorough_proof_recheck(ctx)
+    # second tie (translator), beside the correspondence: regenerate Gen.CrcGen from the current sources, re-prove the 26 tie theorems
+    tie_pool = ThreadPoolExecutor(max_workers=1)
+    tie_job = tie_pool.submit(translator_tie, ctx)
+    try:
+        correspondence(ctx)
+    finally:
+        tie_job.result()
+        tie_pool.shutdown()
+
+
+def correspondence(ctx):
     cbin, mbin = build(ctx)
     groups, n_corpus = gen_groups(ctx)
     shards_idx = make_shards(groups, vlib.NPROC * 2)
@@ -701,11 +731,26 @@ META = {
             "division (with the GF(2)[x] remainder identity); the l variants are the m variants under bit reflection of "
             "polynomial, data and value (stated with the library's own a_u*_rev, proved = bit mirror and involutive by GF(2) "
             "lifting); feeding in pieces at every split point equals one shot, for the CRCs and both multiplicative hashes; "
-            "string and length-delimited hash forms agree on NUL-free input. Tie: extracted model vs the C under ASan+UBSan - "
-            "all 256 8-bit polynomials x full tables x both orders, sampled (thorough: all 16-bit) wider polynomials, messages "
-            "0..300 bytes, non-zero inits, every split point.",
-    "note": "Trusted: Coq kernel/vm_compute (basis sweeps of w words); extraction (ExtrOcamlBasic only) + drivers; hand-written "
-            "model coq/C17/CrcDefs.v tied by differential testing on the generated cases; table entries typed below 2^w; C "
-            "strings as byte lists. No axioms.",
-    "technique": "Rocq proof (xor-linearity of the CRC step, induction over the message, GF(2) lifting for bit reversal) + extracted-model vs C correspondence",
+            "string and length-delimited hash forms agree on NUL-free input. Two ties on every run: (1) translator tie - "
+            "tools/c2int.py regenerates a Gallina model over N from the current src/crc.c, src/hash.c and the a_u*_rev of a.h "
+            "(wrap at every unsigned + * <<, signed-overflow / shift / bounds checks = None, every loop a fuel-indexed Fixpoint, "
+            "tables and messages as lists read with nth_error, table stores as checked list updates) and 26 theorems "
+            "tie_<function> (harness/C17/TieInt*.v) prove each regenerated function equal to the model of coq/C17/CrcDefs.v for "
+            "ALL inputs: the eight generators a_crc{8,16,32,64}{m,l}_init for every polynomial and every 256-cell table, "
+            "a_crc8 and a_crc{16,32,64}{m,l} for every table, start value and message of ANY length, a_hash_bkdr/sdbm and "
+            "their length-delimited forms for every byte list (NULL included), a_u8/16/32/64_rev for every word; (2) extracted "
+            "model vs the C under ASan+UBSan - all 256 8-bit polynomials x full tables x both orders, sampled (thorough: all "
+            "16-bit) wider polynomials, messages 0..300 bytes, non-zero inits, every split point.",
+    "note": "Trusted: Coq kernel/vm_compute (basis sweeps of w words); the translator tools/c2int.py as a reading of the C (its "
+            "output is re-tied to the model by proof on every run; the extracted-model-vs-C correspondence is the independent "
+            "guard against a misreading shared with the hand model); extraction (ExtrOcamlBasic only) + drivers.  Tie "
+            "hypotheses: message cells < 2^8, table cells < 2^w (needed for the 32/64-bit updates only), message length < "
+            "2^64 and nbyte = that length, start value < 2^w; the loops get fuel length+1 (updates, hashes), 257 and 9 "
+            "(generators).  Translator limits: negative signed values are not represented (an operation that would produce "
+            "one is an error of the generated program; the ties show it never happens); forming a pointer past a buffer is "
+            "not checked, only accesses are; C strings are byte lists (running off the list before a 0 byte is an error on "
+            "both sides).  No axioms (Print Assumptions under every tie theorem: closed).",
+    "technique": "Rocq proof (xor-linearity of the CRC step, induction over the message, GF(2) lifting for bit reversal) + translator "
+                 "tie (c2int: regenerated integer model = proved model, 26 theorems re-proved per run, induction over the message / "
+                 "table index) + extracted-model vs C correspondence",
 }
